@@ -775,3 +775,52 @@ def run_skipgate(prog, prefix="mpq_", rule="R-SKIPGATE"):
     res.counts["solve_entry_points"] = n
     res.floor("solve entry points calling opt_work", n, 2)
     return res
+
+
+def run_pricedim(prog, E=None, prefix="mpq_", rule="R-PRICEDIM"):
+    """the devex part of the pricing record (weights and reference frames, laid out for the numbers of rows and columns they were built
+    with) does not survive a change of those numbers: every public function that may change ILLlpdata::nrows / ncols / nstruct returns
+    successfully only after it has reset p->factorok (the next solve then rebuilds all pricing data) or released the reference frames
+    (a callee whose effects include *_devex_info::refframe of p->pricing).  QSadd_col on the pinned tree kept both: the next dual solve
+    with devex pricing indexed the old frame with the new column."""
+    E = E or Effects(prog)
+    res = RuleResult(rule, "every public function that may change the number of rows or columns resets factorok or releases the devex reference frames "
+                           "on every path to a success return")
+    n = 0
+    for f, pidx in api_functions(prog, prefix):
+        m = events(prog, E, f, pidx, {"nrows", "ncols", "nstruct"}, prefix)
+        if not m:
+            continue
+        if base(f.name) in EXEMPT:
+            continue
+        inv = set()
+        for ci in E.callinfo[f.key]:
+            (g, name, loc, args, bid, idx, c) = ci
+            for (j, fp) in E.call_writes(f, ci):
+                if j == pidx and fp and fp[-1].endswith("devex_info::refframe"):
+                    inv.add((bid, idx))
+        for (j, fp, loc, how, bid, idx) in E.direct_writes(f):
+            if j == pidx and fp and fp[-1].endswith("qsdata::factorok"):
+                e = f.blocks[bid]["e"][idx]
+                if e[0] == "A" and const_of(e[1][3]) == 0:
+                    inv.add((bid, idx))
+        # a callee that is itself a checked public mutator (QSadd_row -> QSadd_rows) carries the obligation
+        for ci in E.callinfo[f.key]:
+            (g, name, loc, args, bid, idx, c) = ci
+            if g is not None and (bid, idx) in m and any(g.key == f2.key for f2, _ in api_functions(prog, prefix)):
+                inv.add((bid, idx))
+        n += 1
+        an = MustFollow(prog, f, m, inv).run()
+        res.obligations += len(m)
+        res.nontrivial += len(m)
+        if an.bad:
+            loc, (bid, st) = sorted(an.bad.items())[0]
+            res.violations.append(Violation(rule, "%s|row / column count changed, factorok and devex data kept" % base(f.name), f.name, short_loc(loc),
+                                            "%s can return 0 after a call that changes the number of rows or columns with p->factorok still set and the devex weights / "
+                                            "reference frames of p->pricing still in place: the next dual solve keeps the pricing record and indexes arrays of the old "
+                                            "dimensions" % f.name, path=an.flow.witness(bid, st)))
+        else:
+            res.sample({"function": f.name, "dimension_changing_events": len(m), "verdict": "factorok reset or devex data released on every success path"}, limit=12)
+    res.counts["dimension_changing_public_functions"] = n
+    res.floor("public functions that may change the row / column count", n, 8)
+    return res
